@@ -395,6 +395,46 @@ def callnull_case(item):
         return '%s(%s = NULL) returns %#x, the headers document ERR_BAD_INPUT for invalid input pointers' % (cname, aname, r)
     return None
 
+# ------------------------------------------------------------------ documented overlap errors
+def overlap_error_cases():
+    """buffer pairs that a header forbids to overlap under \\expect{ERR_BAD_INPUT} (catalogue: overlap['excluded']; belt DWP / CHE dest-mac,
+    FMT iv-dest, brngHMACRand buf-iv; bign / bign96 sig-hash): the second buffer slid over EVERY position that intersects the first"""
+    import C11
+    out = []
+    extra = {'bignSign': [('sig', 'hash')], 'bignSign2': [('sig', 'hash')], 'bign96Sign': [('sig', 'hash')], 'bign96Sign2': [('sig', 'hash')]}
+    best = {}
+    for f, c in corpora.all_cases('quick'):
+        fn = cat.CAT.get(f)
+        if fn is None or not fn.args or fn.ret != 'err':
+            continue
+        pairs = list((getattr(fn, 'overlap', None) or {}).get('excluded', [])) + extra.get(f, [])
+        if not pairs or fn.ref is None:
+            continue
+        sz = C11.sizes(fn, c)
+        if any(a not in sz or b not in sz or not sz[a] or not sz[b] for a, b in pairs) or (fn.ref(c) or {}).get('ret') != 0:
+            continue
+        score = min(sz[pairs[0][0]], 64)            # the accepted corpus case with the largest first buffer (up to 64 octets)
+        if f not in best or score > best[f][0]:
+            best[f] = (score, c, pairs, sz)
+    for f, (score, c, pairs, sz) in sorted(best.items()):
+        for a, b in pairs:
+            for delta in range(-sz[b] + 1, sz[a]):
+                out.append((f, c, a, b, delta))
+    return out
+
+def overlap_error_case(item):
+    import C11
+    f, c, a, b, delta = item
+    L = common.lib(CFG)
+    fn = cat.CAT[f]
+    with vf.Arena(L) as A:
+        arena = A.buf(C11.ARENA, 0x5C)
+        place = {a: (arena, C11.BASE), b: (arena, C11.BASE + delta)}
+        res = cat.run(L, fn, c, fill=0xC3, place=place, A=A)
+    if res['ret'] != 109:
+        return '%s with %s at %s%+d (the buffers intersect): returned %#x, the header documents ERR_BAD_INPUT' % (f, b, a, delta, res['ret'])
+    return None
+
 def sweep_case(item):
     msg, ret = common.check_ref_case(item, CFG)
     return msg, ret
@@ -456,6 +496,18 @@ def sub(tier, what, out):
         if r:
             add('null:%s:%s' % (cname, aname), rec, '%s  [inside %s %s]' % (r, f, cat.short(c)))
     result['parts']['null_pointer_sweep_call_level'] = dict(states=len(cs_), transitions=len(cs_), traces_validated_against_impl=len(cs_), evaluations=len(cs_), functions=len(set(x[2] for x in cs_)))
+    # 2d. overlaps that the headers forbid under ERR_BAD_INPUT
+    oc = overlap_error_cases()
+    res = vf.pmap(overlap_error_case, oc, case_timeout=120)
+    for item, r in zip(oc, res):
+        f, c, a, b, delta = item
+        rec = {'cfg': CFG, 'kind': 'overlaperr', 'fn': f, 'case': cat.enc_case(c), 'a': a, 'b': b, 'delta': delta}
+        if isinstance(r, dict):
+            k, m = C07.classify(r.get('stderr', '') or r.get('harness_error', '') or r.get('crash', ''))
+            add('overlap-error:%s:%s' % (k, f), rec, '%s with %s over %s: %s' % (f, b, a, m)); continue
+        if r:
+            add('overlap-error:%s:%s/%s' % (f, a, b), rec, r)
+    result['parts']['documented_overlap_errors'] = dict(states=len(oc), transitions=len(oc), traces_validated_against_impl=len(oc), evaluations=len(oc), functions=len(set(x[0] for x in oc)))
     # 3. no release on failed authentication
     au = auth_cases(tier)
     res = vf.pmap(auth_case, au, case_timeout=120)
@@ -516,6 +568,11 @@ def replay(rec):
         return r[0]
     if k == 'null':
         r = vf.pmap(null_case, [(rec['fn'], case)], nproc=1)[0]
+        if isinstance(r, dict):
+            return C07.classify(r.get('stderr', '') or r.get('crash', ''))[1]
+        return r
+    if k == 'overlaperr':
+        r = vf.pmap(overlap_error_case, [(rec['fn'], case, rec['a'], rec['b'], rec['delta'])], nproc=1)[0]
         if isinstance(r, dict):
             return C07.classify(r.get('stderr', '') or r.get('crash', ''))[1]
         return r
